@@ -274,7 +274,7 @@ fn oracle_wellformed(case: &[u8], obs: &mut Obs, f: Flavor) -> Result<(), String
                 if !present.contains(&i) {
                     return Err(format!("{}: returned index {} whose name is {:?}; indexes carrying the name: {:?}", ctx(), i, b.all.get(i).map(|n| String::from_utf8_lossy(n).to_string()), present));
                 }
-                if s != conv::sym(&b.tab.syms[i], b.enc) {
+                if !conv::FieldEq::field_eq(&s, &conv::sym(&b.tab.syms[i], b.enc)) {
                     return Err(format!("{}: returned symbol {:?} which is not symbol-table entry {} ({:?})", ctx(), s, i, b.tab.syms[i]));
                 }
                 hits += 1;
@@ -298,6 +298,42 @@ fn oracle_wellformed(case: &[u8], obs: &mut Obs, f: Flavor) -> Result<(), String
     obs.count("hits", hits);
     obs.count("absent", absent);
     obs.count("absent_hash_colliding", absent_colliding);
+    // the same queries on ONE table value, ordered so that names with equal hash values follow each other (in both
+    // directions): a lookup must not depend on the lookups made before it
+    {
+        let mut order: Vec<&Vec<u8>> = queries.iter().collect();
+        order.sort_by_key(|q| (hash_of(f, q), q.len()));
+        let idx_of = |q: &Vec<u8>| -> Option<usize> { (b.first_hashed..b.all.len()).find(|i| &b.all[*i] == q) };
+        let r: Result<(), String> = with_endian!(b.spec, |e| (|| -> Result<(), String> {
+            let st = SymbolTable::new(e, class, &b.tab.symtab);
+            let strs = StringTable::new(&b.tab.strtab);
+            let both: Vec<&Vec<u8>> = order.iter().copied().chain(order.iter().rev().copied()).collect();
+            match f {
+                Flavor::Gnu => {
+                    let t = GnuHashTable::new(e, class, &b.hash).map_err(|er| format!("::new failed with {}", err_name(&er)))?;
+                    for q in both {
+                        let got = t.find(q, &st, &strs).map_err(|er| format!("find failed with {}", err_name(&er)))?.map(|x| x.0);
+                        let present = idx_of(q).is_some();
+                        if got.is_some() != present || got.map(|i| &b.all[i] != q).unwrap_or(false) {
+                            return Err(format!("query {:?} answered {:?} when asked after other queries on the same table value (present: {})", String::from_utf8_lossy(q), got, present));
+                        }
+                    }
+                }
+                Flavor::SysV => {
+                    let t = SysVHashTable::new(e, class, &b.hash).map_err(|er| format!("::new failed with {}", err_name(&er)))?;
+                    for q in both {
+                        let got = t.find(q, &st, &strs).map_err(|er| format!("find failed with {}", err_name(&er)))?.map(|x| x.0);
+                        let present = idx_of(q).is_some();
+                        if got.is_some() != present || got.map(|i| &b.all[i] != q).unwrap_or(false) {
+                            return Err(format!("query {:?} answered {:?} when asked after other queries on the same table value (present: {})", String::from_utf8_lossy(q), got, present));
+                        }
+                    }
+                }
+            }
+            Ok(())
+        })());
+        r.map_err(|m| format!("{} {} {} [{}] with {} symbols: {}", b.enc.name(), SPEC_NAMES[b.spec as usize], fname, b.params, b.all.len(), m))?;
+    }
     // chain statistics for the non-triviality rule
     let nb = queries.len();
     let _ = nb;
